@@ -33,4 +33,46 @@ theorem looseChars_pat : parsePat Gen.hasOnlyAToZNumHyphenUnderscorePattern.toLi
 
 theorem ctrl_pat : parsePat Gen.hasAsciiControlCharsPattern.toList = some ⟨false, [(0, 31), (127, 127)], false, .none⟩ := by decide
 
+/-! ### shape pins: the source text of the statements that are hand-modelled (see tools/leaves/name.py).
+An edit of one of these statements in the working tree breaks exactly the lemma named after it; the model in
+`Zc/Model/Name.lean` / `Zc/Model/Txt.lean` was written against these texts. -/
+
+theorem pin_suffix_test : Gen.Name.src_suffix_test = "type_.endswith((_TCP_PROTOCOL_LOCAL_TRAILER, _NONTCP_PROTOCOL_LOCAL_TRAILER))" := by decide
+theorem pin_local_test : Gen.Name.src_local_test = "type_.endswith(_LOCAL_TRAILER)" := by decide
+theorem pin_with_service : Gen.Name.src_with_service = "strict or has_protocol" := by decide
+theorem pin_no_service_name : Gen.Name.src_no_service_name = "not service_name" := by decide
+theorem pin_leading_dot : Gen.Name.src_leading_dot = "len(remaining) == 1 and len(remaining[0]) == 0" := by decide
+theorem pin_first_underscore : Gen.Name.src_first_underscore = "service_name[0] != '_'" := by decide
+theorem pin_test_service_name : Gen.Name.src_test_service_name = "service_name[1:]" := by decide
+theorem pin_double_hyphen : Gen.Name.src_double_hyphen = "'--' in test_service_name" := by decide
+theorem pin_edge_hyphen : Gen.Name.src_edge_hyphen = "'-' in (test_service_name[0], test_service_name[-1])" := by decide
+theorem pin_letter_search : Gen.Name.src_letter_search = "not _HAS_A_TO_Z.search(test_service_name)" := by decide
+theorem pin_allowed_re : Gen.Name.src_allowed_re = "_HAS_ONLY_A_TO_Z_NUM_HYPHEN if strict else _HAS_ONLY_A_TO_Z_NUM_HYPHEN_UNDERSCORE" := by decide
+theorem pin_chars_search : Gen.Name.src_chars_search = "not allowed_characters_re.search(test_service_name)" := by decide
+theorem pin_sub_test : Gen.Name.src_sub_test = "remaining and remaining[-1] == '_sub'" := by decide
+theorem pin_sub_empty : Gen.Name.src_sub_empty = "len(remaining) == 0 or len(remaining[0]) == 0" := by decide
+theorem pin_join_test : Gen.Name.src_join_test = "len(remaining) > 1" := by decide
+theorem pin_split_proto : Gen.Name.src_split_proto = "type_[:-len(_TCP_PROTOCOL_LOCAL_TRAILER)].split('.')" := by decide
+theorem pin_join : Gen.Name.src_join = "['.'.join(remaining)]" := by decide
+theorem pin_split_local : Gen.Name.src_split_local = "type_[:-len(_LOCAL_TRAILER)].split('.')" := by decide
+theorem pin_trailer_proto : Gen.Name.src_trailer_proto = "type_[-len(_TCP_PROTOCOL_LOCAL_TRAILER):]" := by decide
+theorem pin_trailer_local : Gen.Name.src_trailer_local = "type_[-len(_LOCAL_TRAILER) + 1:]" := by decide
+theorem pin_service_name_pop : Gen.Name.src_service_name_pop = "remaining.pop()" := by decide
+theorem pin_result : Gen.Name.src_result = "service_name + trailer" := by decide
+theorem pin_inst_length : Gen.Name.src_inst_length = "len(remaining[0].encode('utf-8'))" := by decide
+theorem pin_ctrl_search : Gen.Name.src_ctrl_search = "_HAS_ASCII_CONTROL_CHARS.search(remaining[0])" := by decide
+theorem pin_ctor_test : Gen.Name.src_ctor_test = "not type_.endswith(service_type_name(name, strict=False))" := by decide
+theorem pin_txt_key_is_str : Gen.Name.src_txt_key_is_str = "isinstance(key, str)" := by decide
+theorem pin_txt_value_present : Gen.Name.src_txt_value_present = "value is not None" := by decide
+theorem pin_txt_value_not_bytes : Gen.Name.src_txt_value_not_bytes = "not isinstance(value, bytes)" := by decide
+theorem pin_txt_value_coerce : Gen.Name.src_txt_value_coerce = "str(value).encode('utf-8')" := by decide
+theorem pin_txt_item : Gen.Name.src_txt_item = "b''.join((result, bytes((len(item),)), item))" := by decide
+theorem pin_txt_alias_test : Gen.Name.src_txt_alias_test = "not properties_contain_str" := by decide
+theorem pin_txt_loop : Gen.Name.src_txt_loop = "index < end" := by decide
+theorem pin_txt_slice : Gen.Name.src_txt_slice = "text[index:index + length]" := by decide
+theorem pin_txt_partition : Gen.Name.src_txt_partition = "key_value.partition(b'=')" := by decide
+theorem pin_txt_key : Gen.Name.src_txt_key = "key_sep_value[0]" := by decide
+theorem pin_txt_first_wins : Gen.Name.src_txt_first_wins = "key not in properties" := by decide
+theorem pin_txt_stored : Gen.Name.src_txt_stored = "key_sep_value[2] or None" := by decide
+
 end Zc.Name.GenFacts
